@@ -140,6 +140,10 @@ def judge_tree(ctx, case, resp):
         elif kind == "layout" and canon.get(tuple(v[1]), (sut, err == "")) != (sut, err == ""):
             f = mismatch(kind, text, tokens, entry, sut, err, canon[tuple(v[1])][0],
                          "white space / comments between the same tokens changed the result (expected = result of the one-blank layout)")
+        elif sut != exp and exp != T and uses_locals(tokens):
+            # another set of parentheses gives another tree, and in that tree a name that only an enclosing construct binds may stand outside
+            # its construct: there it is an unknown name (and swallows the words after it). Nothing is asserted for such a rendering.
+            labels.append("locals:rescoped-not-asserted")
         elif sut != exp:
             f = mismatch(kind, text, tokens, entry, sut, err, exp, "the parser and the grammar's binding rules disagree")
         if len(v) <= 2 or not v[2]:
@@ -151,6 +155,10 @@ def judge_tree(ctx, case, resp):
             if first_fail is None:
                 first_fail = f
     return first_fail
+
+
+def uses_locals(tokens):
+    return any(t[0] == "name" and t[1] in fs.LOCAL_NAMES for t in tokens)
 
 
 def make_variants(tree, entry, src=None, max_drop=6, subsets=2):
@@ -226,6 +234,9 @@ def _templates():
     T["call0"] = (1, lambda s: ["call", s[0], ["pos", []]])
     T["notcall"] = (1, lambda s: ["call", N("not"), ["pos", [s[0]]]])
     T["callnamed"] = (2, lambda s: ["call", s[0], ["named", [["p", s[1]]]]])
+    T["callnamed-dt"] = (2, lambda s: ["call", N("f"), ["named", [["date", s[0]], ["time", s[1]]]]])
+    T["ctx-dt"] = (2, lambda s: ["ctx", [["k", "name", s[0]], ["date", "name", s[1]]]])
+    T["ctx-time"] = (1, lambda s: ["ctx", [["time", "name", s[0]]]])
     T["if"] = (3, lambda s: ["if", s[0], s[1], s[2]])
     T["for"] = (2, lambda s: ["for", [["x", "single", s[0]]], s[1]])
     T["for-range"] = (3, lambda s: ["for", [["x", "range", s[0], s[1]]], s[2]])
